@@ -323,7 +323,7 @@ MUTANTS = [
     {'name': '_ModelBase.get_S multiplies by T', 'expect': ('TWIN.dim', '.get_S'),
      'edits': [(P_, 'return _force_pass_arguments(self.get_SoR, **kwargs) * R_adj', 'return _force_pass_arguments(self.get_SoR, **kwargs) * R_adj * kwargs.get(\'T\', 1.)')]},
     {'name': 'get_delta_F calls delta_GoRT', 'expect': ('TWIN.dim', 'get_delta_F'),
-     'edits': [(R_, 'return self.get_delta_FoRT(rev=rev, T=T, act=act, **kwargs) \\', 'return self.get_delta_GoRT(rev=rev, T=T, act=act, **kwargs) \\')]},
+     'edits': [(R_, 'return self.get_delta_FoRT(rev=rev, T=T, act=act, **kwargs) * T * c.R(', 'return self.get_delta_GoRT(rev=rev, T=T, act=act, **kwargs) * T * c.R(')]},
     {'name': 'StatMech.get_U units not extended by /K', 'expect': ('', 'StatMech'),
      'edits': [(SM_, "        units = '{}/K'.format(units)\n        R_adj = _get_R_adj(units=units, elements=self.elements)\n        return self.get_UoRT(",
                 "        R_adj = _get_R_adj(units=units + '/K' if False else units, elements=self.elements)\n        return self.get_UoRT(")]},
@@ -341,7 +341,7 @@ MUTANTS = [
     {'name': '_get_R_adj multiplies by molar mass', 'expect': ('TWIN.dim', ''),
      'edits': [(P_, "    R_adj = c.R(mol_units) / c.convert_unit(", "    R_adj = c.R(mol_units) * c.convert_unit(")]},
     {'name': 'get_G_act of Reaction multiplies T twice', 'expect': ('TWIN.dim', 'get_G_act'),
-     'edits': [(R_, "        return self.get_GoRT_act(T=T, rev=rev, **kwargs) \\\n            * T * c.R('{}/K'.format(units))", "        return self.get_GoRT_act(T=T, rev=rev, **kwargs) \\\n            * T * T * c.R('{}/K'.format(units))", 0, 2)]},
+     'edits': [(R_, "        return self.get_GoRT_act(T=T, rev=rev, **kwargs)*T \\\n               *c.R('{}/K'.format(units))", "        return self.get_GoRT_act(T=T, rev=rev, **kwargs)*T*T \\\n               *c.R('{}/K'.format(units))", 0, 2)]},
 ]
 EQUIV = [
     {'name': 'get_delta_Cv spelled with keyword order changed',
